@@ -15,6 +15,12 @@ import (
 // AllocAligned allocates 'shards' slices, with 'each' bytes.
 // Each slice will start on a 64 byte aligned boundary.
 func AllocAligned(shards, each int) [][]byte {
+	if shards < 0 {
+		shards = 0
+	}
+	if each < 0 {
+		each = 0
+	}
 	if false {
 		res := make([][]byte, shards)
 		for i := range res {
